@@ -221,6 +221,11 @@ theorem leaf_of_clean (c : Case) (rt : CState) (hw : wf c = true) (hc : clean c.
 
 /-! ### one assignment -/
 
+@[simp] theorem retype_user (k : Option FaultKind) (t : String) : retype k (.user t) = faultExc k t := rfl
+@[simp] theorem retype_attributeError (k : Option FaultKind) : retype k .attributeError = .attributeError := rfl
+@[simp] theorem retype_frozenAttribute (k : Option FaultKind) : retype k .frozenAttribute = .frozenAttribute := rfl
+@[simp] theorem retype_frozenInstance (k : Option FaultKind) : retype k .frozenInstance = .frozenInstance := rfl
+
 theorem hitPos_lt (fault : Option Nat) (n p : Nat) (h : hitPos fault n = some p) : p < n := by
   unfold hitPos at h
   cases fault with
@@ -252,10 +257,11 @@ theorem chainVal_default (f : Field) (v : Val) :
 /-- **one step of the model satisfies `stepOk`**, and under define's default a successful step leaves
     `convApply` in the store -/
 theorem step_ok (cs : List Cls) (rt : CState) (l : Cls) (e0 : Eff) (hl : Leaf cs rt l e0)
-    (rv : Bool) (fault : Option Nat) (ps : List String) (st : Store) (a : Assign) (ct : Option Val) :
+    (rv : Bool) (fault : Option Nat) (k : Option FaultKind) (ps : List String) (st : Store) (a : Assign)
+    (ct : Option Val) :
     let r := assign rt rv fault st a.name a.value
-    stepOk cs rv fault (snapshot ps st) a
-        { exc := r.2.exc, trace := r.2.trace, values := snapshot ps r.1, ctor := ct } = true ∧
+    stepOk cs rv fault k (snapshot ps st) a
+        { exc := r.2.exc.map (retype k), trace := r.2.trace, values := snapshot ps r.1, ctor := ct } = true ∧
     (isDefineDefault cs a.name = true → r.2.exc = none →
       ∃ f, fieldOf cs a.name = some f ∧ r.1.get a.name = some (Init.convApply f.toInit a.value)) := by
   intro r
